@@ -6,7 +6,8 @@ import SJ.Proofs.Utf8Value
 
 In the model every Rust panic site / `unreachable!` is an explicit fallback outcome; the theorems
 show the fallbacks are never taken and the recursion depth (= height of the explicit stack) is
-bounded. Termination is by construction (`run` is a structural fold over the input). Memory safety
+bounded, and that the strings handed to `str::from_utf8_unchecked` by the `&str` source are valid UTF-8
+(`c14_utf8`, `c14_utf8_at_closing_quote`). Termination is by construction (`run` is a structural fold over the input). Memory safety
 of the compiled `unsafe` blocks and real stack consumption live in the runtime and are outside any
 model (DESIGN.md §9): partial by nature.
 -/
